@@ -86,7 +86,7 @@ ASSUMPTIONS = [
     "area / centroid tolerance: rel 1e-12 plus the forward error bound 8 eps sum|terms| of the documented shoelace / Bourke sums",
 ]
 REQUIRED_CLASSES = [
-    "shape:triangle", "shape:rectangle", "shape:convex", "shape:concave", "shape:straight-vertex",
+    "grid:emitter-configurations", "shape:triangle", "shape:rectangle", "shape:convex", "shape:concave", "shape:straight-vertex",
     "order:rot0", "order:rot+", "order:input-cw", "order:input-ccw", "order:stored-reversed",
     "container:tuples", "container:ndarray", "container:Point2D",
     "coords:exact", "coords:inexact", "coords:on-axis",
@@ -661,6 +661,27 @@ def _body(case, skip, send, progress):
                 V("ToroidalVoxelGrid:voxel-order-or-volume", desc, ref.vol, vv)
         if em != [CONST] * gl:
             V("ToroidalVoxelGrid.emissivities_from_function:constant-not-reproduced", desc, [CONST] * gl, em)
+        # the total volume is a property of the voxel list, whatever the emitter configuration of the grid:
+        # every documented way of (de)activating voxels, then read again
+        try:
+            configs = [("set_active(0)", lambda gr: gr.set_active(0)), ("set_active(last)", lambda gr: gr.set_active(gl - 1)),
+                       ("unparent_all_voxels()", lambda gr: gr.unparent_all_voxels()), ("parent_all_voxels()", lambda gr: gr.parent_all_voxels()),
+                       ('set_active("all")', lambda gr: gr.set_active("all"))]
+            for cname, fn in configs:
+                fn(grid)
+                tv2 = grid.total_volume
+                acc.nev += 1
+                acc.trans += 2
+                if not abs(tv2 - exp) <= tol:
+                    V("ToroidalVoxelGrid.total_volume:after-emitter-configuration:vs-exact-sum", desc + " after " + cname, exp, tv2)
+                    break
+            g2 = vx.ToroidalVoxelGrid(lists, active=gl - 1)
+            tv3 = g2.total_volume
+            if not abs(tv3 - exp) <= tol:
+                V("ToroidalVoxelGrid.total_volume:constructed-with-active=i:vs-exact-sum", desc, exp, tv3)
+            classes["grid:emitter-configurations"] += 1
+        except Exception as e:  # noqa
+            V("ToroidalVoxelGrid:emitter-configuration:raises:%s" % type(e).__name__, desc + ": " + str(e)[:200], "total_volume", type(e).__name__)
         g = g % 4 + 1
 
     planned = sum(len(x[-1]) for x in late)
